@@ -416,3 +416,37 @@ func Indicator(t Term) (string, int, bool) {
 	}
 	return "", 0, false
 }
+
+// ExpandStrings replaces "$str"(Text) nodes by what a double-quoted literal denotes under mode
+// ("codes", "chars" or "atom").
+func ExpandStrings(t Term, mode string) Term {
+	t = Deref(t)
+	c, ok := t.(*Cmp)
+	if !ok {
+		return t
+	}
+	if c.F == "$str" && len(c.Args) == 1 {
+		s := string(c.Args[0].(Atom))
+		switch mode {
+		case "atom":
+			return Atom(s)
+		case "chars":
+			var es []Term
+			for _, r := range s {
+				es = append(es, Atom(string(r)))
+			}
+			return List(es...)
+		default:
+			var es []Term
+			for _, r := range s {
+				es = append(es, Int(r))
+			}
+			return List(es...)
+		}
+	}
+	args := make([]Term, len(c.Args))
+	for i, a := range c.Args {
+		args[i] = ExpandStrings(a, mode)
+	}
+	return &Cmp{F: c.F, Args: args}
+}
